@@ -4,7 +4,8 @@
    event and re-relays with that origin (what every handler in clusterevents.cpp does).  The iteration
    order of each node's endpoint sets is unknown (pointer values, different in every process), so every
    relay branches over all orders that can make a difference.
-   [rt_explore] is the exhaustive exploration of ALL delivery orders and ALL iteration orders. *)
+   [rt_explore] explores ONE representative delivery order (deliveries commute, RtSched.v) and ALL iteration
+   orders; RtNetSound.v turns its verdict into a statement about the step relation. *)
 From Coq Require Import List Arith Bool PeanoNat.
 From Icv Require Import Route.RtModel.
 Import ListNotations.
@@ -38,23 +39,48 @@ Fixpoint rt_dedup (l : list (list nat)) : list (list nat) :=
   | x :: r => if existsb (rt_list_eqb x) r then rt_dedup r else x :: rt_dedup r
   end.
 
-(* the distinct send lists one relay can produce over all iteration orders: only foreign zones with
-   two endpoints can make a difference (RtProofs: the local zone loop sends to a fixed set) *)
+(* the distinct send lists one relay can produce over all iteration orders of zones with two endpoints
+   (RtNetSound.rt_variants_cover: every admissible order yields one of them) *)
 Definition rt_variants (c : rt_cfg) (me lz : nat) (conn : list nat) (o : rt_origin) (target : nat) : list (list nat) :=
-  let vary := filter (fun z => negb (z =? lz) && (2 <=? length (rt_eps c z))) (rt_relay_zones c lz target) in
+  let vary := filter (fun z => 2 <=? length (rt_eps c z)) (rt_relay_zones c lz target) in
   rt_dedup (map (fun fl => rt_sends (rt_relay c me lz conn o (rt_ord_of c fl) target true)) (rt_subsets vary)).
 
-Fixpoint rt_remove_nth (i : nat) (l : list rt_msg) : list rt_msg :=
-  match i, l with
-  | _, [] => []
-  | 0, _ :: r => r
-  | S j, x :: r => x :: rt_remove_nth j r
+Definition rt_mk_msgs (t : nat) (oz : option nat) (sends : list nat) : list rt_msg :=
+  map (fun e => {| rt_mfrom := t; rt_mto := e; rt_moz := oz |}) sends.
+
+(* what delivering message m does, at a receiver that iterates its endpoint sets in the orders [nord t]:
+   None = ill-formed (receiver in no zone); otherwise the new in-flight messages and the endpoints (none when the
+   handler's CanAccessObject test discards the message, else the receiver) that process the event *)
+Definition rt_effect (c : rt_cfg) (links : list (nat * nat)) (target : nat) (nord : nat -> nat -> list nat)
+           (m : rt_msg) : option (list rt_msg * list nat) :=
+  let t := rt_mto m in
+  match rt_zone_of c t with
+  | None => None
+  | Some lz =>
+      let o := rt_recv_origin c lz (Some (rt_mfrom m)) (rt_moz m) in
+      if negb (rt_accepts c o target) then Some ([], [])
+      else Some (rt_mk_msgs t (rt_ozone o)
+                   (rt_sends (rt_relay c t lz (rt_view links t) o (nord t) target true)), [t])
   end.
 
-Definition rt_msg0 : rt_msg := {| rt_mfrom := 0; rt_mto := 0; rt_moz := None |}.
+(* the same for every iteration order at once *)
+Definition rt_effects (c : rt_cfg) (links : list (nat * nat)) (target : nat) (m : rt_msg)
+  : option (list (list rt_msg * list nat)) :=
+  let t := rt_mto m in
+  match rt_zone_of c t with
+  | None => None
+  | Some lz =>
+      let o := rt_recv_origin c lz (Some (rt_mfrom m)) (rt_moz m) in
+      if negb (rt_accepts c o target) then Some [([], [])]
+      else Some (map (fun sends => (rt_mk_msgs t (rt_ozone o) sends, [t]))
+                     (rt_variants c t lz (rt_view links t) o target))
+  end.
 
-(* all runs from this state: terminate within [fuel] deliveries, never deliver an event to an endpoint
-   that has processed it already, and end in a state satisfying [final] *)
+Definition rt_fresh_b (np P : list nat) : bool := negb (existsb (fun e => existsb (Nat.eqb e) P) np).
+
+(* the representative schedule (oldest message first), branching over every iteration order of every receiver:
+   false as soon as fuel runs out, an endpoint that already processed the event would process it again, or the
+   end state is not final.  RtSched.rt_run1_good + RtNetSound: a verdict about ALL schedules and ALL orders. *)
 Fixpoint rt_explore (fuel : nat) (c : rt_cfg) (links : list (nat * nat)) (target : nat)
          (final : list nat -> bool) (inflight : list rt_msg) (processed : list nat) : bool :=
   match fuel with
@@ -62,35 +88,24 @@ Fixpoint rt_explore (fuel : nat) (c : rt_cfg) (links : list (nat * nat)) (target
   | S f =>
       match inflight with
       | [] => final processed
-      | _ =>
-          forallb (fun i =>
-            let m := nth i inflight rt_msg0 in
-            let rest := rt_remove_nth i inflight in
-            let t := rt_mto m in
-            match rt_zone_of c t with
-            | None => false
-            | Some lz =>
-                let o := rt_recv_origin c lz (Some (rt_mfrom m)) (rt_moz m) in
-                if negb (rt_accepts c o target) then rt_explore f c links target final rest processed
-                else if rt_mem t processed then false
-                else forallb (fun sends =>
-                       rt_explore f c links target final
-                         (rest ++ map (fun e => {| rt_mfrom := t; rt_mto := e; rt_moz := rt_ozone o |}) sends)
-                         (t :: processed))
-                     (rt_variants c t lz (rt_view links t) o target)
-            end) (seq 0 (length inflight))
+      | m :: rest =>
+          match rt_effects c links target m with
+          | None => false
+          | Some effs =>
+              forallb (fun e => rt_fresh_b (snd e) processed &&
+                                rt_explore f c links target final (rest ++ fst e) (snd e ++ processed)) effs
+          end
       end
   end.
 
 (* an event originating at endpoint s (processed there, relayed without origin) *)
+Definition rt_fuel (c : rt_cfg) : nat := 2 * length (flat_map rt_zeps c) + 2.
+
 Definition rt_run_ok (c : rt_cfg) (links : list (nat * nat)) (target s : nat) (final : list nat -> bool) : bool :=
   match rt_zone_of c s with
   | None => false
   | Some lz =>
-      let n := length (flat_map rt_zeps c) in
-      forallb (fun sends =>
-        rt_explore (2 * n + 2) c links target final
-          (map (fun e => {| rt_mfrom := s; rt_mto := e; rt_moz := None |}) sends) [s])
+      forallb (fun sends => rt_explore (rt_fuel c) c links target final (rt_mk_msgs s None sends) [s])
         (rt_variants c s lz (rt_view links s) rt_no_origin target)
   end.
 
